@@ -422,3 +422,27 @@ func VerifSumOK(e *Element, n uint32) bool {
 	}
 	return ok
 }
+
+// ---- Pow2k for EVERY k >= 1 on the 32-bit back end: one iteration of the real loop from an arbitrary state ----
+// Header invariant: fe reduced, k >= 1. The body squares the value (reduced again) and decrements k by one; the loop
+// is left exactly when k = 1, with fe unchanged. With the first squaring (obligation Pow2k, k = 1) fe = t^(2^k).
+
+func inv_pow2k32(fe *Element, k uint) bool { return reducedOK(&fe.inner) && k >= 1 }
+func pre_pow2k32_val(fe *Element) verif.Int { return val2625(&fe.inner) }
+func pre_pow2k32_k(k uint) verif.Int       { return verif.IntOf(uint64(k)) }
+func rel_pow2k32(fe *Element, k uint, pre0__ verif.Int, pre1__ verif.Int) bool {
+	return reducedOK(&fe.inner) && verif.ModEq(val2625(&fe.inner), pre0__.Mul(pre0__), fP()) && verif.IntOf(uint64(k)).Add(verif.IntK(1)).Eq(pre1__)
+}
+func post_pow2k32(fe *Element, pre0__ verif.Int, pre1__ verif.Int) bool {
+	return reducedOK(&fe.inner) && val2625(&fe.inner).Eq(pre0__) && pre1__.Eq(verif.IntK(1))
+}
+
+//verif:ob prop=C04,C06,C07 name=Pow2k_every_k mode=int tags=force32bit use=ct_reduce cut=(*internal/field.Element).Pow2k:0 inv=inv_pow2k32 relpre=pre_pow2k32_val+pre_pow2k32_k rel=rel_pow2k32 post=post_pow2k32 postret=1 bound=every_k>=1_by_one_inductive_step_of_the_real_loop
+func vh_Pow2k_every_k() {
+	t := anyElement("t")
+	verif.Assume(mulInputOK(&t.inner))
+	k := uint(verif.AnyU64("k"))
+	verif.Assume(k >= 1 && k <= 1000) // (entry only; the inductive step is for every loop counter. Keeps native replays finite.)
+	var out Element
+	out.Pow2k(t, k)
+}
